@@ -144,6 +144,17 @@ def oracle(rec, res):
             res.count('phase:infinite')
         else:
             res.count('phase:nodiff')
+            # documented law of this mode: content = previously RECORDED content + c * sum R^3 (N - stored PSD) * x_beta(class)
+            xb = rec['xbeta'][p]
+            for e in range(E):
+                terms = [c * float(r) ** 3 * (float(n) - float(o)) for n, o, r in zip(N, rec['psd'][p], R)]
+                lo = math.fsum(t * (min(float(xb[i, e]), float(xb[i + 1, e])) if t >= 0 else max(float(xb[i, e]), float(xb[i + 1, e]))) for i, t in enumerate(terms))
+                hi = math.fsum(t * (max(float(xb[i, e]), float(xb[i + 1, e])) if t >= 0 else min(float(xb[i, e]), float(xb[i + 1, e]))) for i, t in enumerate(terms))
+                inc = float(rec['fconc'][p, e]) - float(rec['prevFconc'][p, e])
+                tol = 1e-9 * (abs(lo) + abs(hi) + abs(float(rec['prevFconc'][p, e]))) + 1e-300
+                if not (lo - tol <= inc <= hi + tol):
+                    res.violate('fconc-increment-nodiff', 'no-precipitate-diffusion mode: content did not change by the PSD increment times the '
+                                'interfacial composition relative to the previously recorded content', brief(rec), inc, [lo, hi])
     if sfv < 1:
         for e in range(E):
             raw = (x0[e] - math.fsum(rec['fconc'][:, e])) / (1 - sfv)
@@ -201,6 +212,9 @@ def trace_runs(ctx):
     if not ctx.thorough:
         go('AlZr/euler/dislocations/2-solves', kwnruns.build_binary(x0=x0, T=T), [3600 * 2, 3600 * 3], 'euler', None)
         go('AlZr/rk4/grain-boundaries', kwnruns.build_binary(x0=x0, T=T, site='grain boundaries', gbEnergy=0.15), [3600.0], 'rk4', 150)
+        # populated from the first step: no precipitate diffusion (content integrated from increments) with RK4 and Vm ratio != 1
+        go('AlZr/rk4/loaded/nodiff/vratio', kwnruns.build_loaded_binary(ctx.rng, infinite=False, vratio=ctx.rng.choice([0.9, 1.2])), [300.0, 300.0], 'rk4', 60)
+        go('AlZr/euler/loaded/vratio', kwnruns.build_loaded_binary(ctx.rng, vratio=ctx.rng.choice([0.9, 1.2])), [600.0], 'euler', 200)
     else:
         go('AlZr/euler/dislocations/3-solves', kwnruns.build_binary(x0=x0, T=T), [3600 * 2, 3600 * 10, 3600 * 40], 'euler', None)
         go('AlZr/rk4/dislocations', kwnruns.build_binary(x0=x0, T=T), [3600 * 5.0], 'rk4', None)
@@ -208,6 +222,8 @@ def trace_runs(ctx):
             go('AlZr/euler/' + site.replace(' ', '-'), kwnruns.build_binary(x0=x0, T=T, site=site, gbEnergy=0.15), [3600 * 5.0], 'euler', 1500)
         go('AlZr/euler/vratio', kwnruns.build_binary(x0=x0, T=T, vratio=1.3), [3600 * 5.0], 'euler', None)
         go('AlZr/euler/nodiff', kwnruns.build_binary(x0=x0, T=T, infinite=False), [3600 * 5.0], 'euler', None)
+        go('AlZr/rk4/loaded/nodiff/vratio', kwnruns.build_loaded_binary(ctx.rng, infinite=False, vratio=ctx.rng.choice([0.9, 1.2])), [300.0, 900.0], 'rk4', 400)
+        go('AlZr/euler/loaded/vratio', kwnruns.build_loaded_binary(ctx.rng, vratio=ctx.rng.choice([0.9, 1.2])), [1200.0], 'euler', None)
         go('NiCrAl/euler/2-solves', kwnruns.build_ternary(), [50.0, 500.0], 'euler', 400)
         go('NiCrAl/rk4', kwnruns.build_ternary(), [100.0], 'rk4', 60)
     return out
